@@ -3,6 +3,12 @@
 import json, os
 HERE = os.path.dirname(os.path.abspath(__file__))
 CLAIMED = {
+ 'C03': ('proof', 'Origin analysis of every byte of the frame transmitted on each accepting path of the two Discover cells of the dispatch matrix (mapper state, addresses, generation, ToS all symbolic): exactly one frame, each header byte must be the required constant, port MAC byte or byte of this very Discover.',
+         'clang AST, lltdsa engine, port contract (deterministic getters), summary of lltd_state_for_iface (verified by C09/C17 rules)',
+         'abstract interpretation with byte-lane/origin terms over the Discover cells', '4 (C03)'),
+ 'C05': ('proof', 'Complete single-step transition function of parseFrame over 2 x 65 536 (mapper state x ToS x opcode) cells plus the address-equality predicate, compared with the oracle; coverage of all cells is checked; histories follow by induction.',
+         'clang AST, lltdsa engine, oracle dispatch table, summary of lltd_state_for_iface',
+         'abstract interpretation with trace partitioning on (ToS, opcode, mapper_known, address equality); transition function vs oracle', '4 (C05)'),
  'C13': ('proof', 'band_update_stats and band_choose_hello_time interpreted with r, prior count and begun symbolic: on every path the stored count is shown equal to min(NMAX, ALPHA*r^BETA) by polynomial identity plus path constraints, every unsigned wrap on the data path is reported, and the interval is shown to be exactly ceil(80*Ni/30) (both bounds) - covering all r in [0,2^32) at once; monotonicity follows from the exact formulas.',
          'clang AST, lltdsa engine (interval + linear entailment with div/mod axioms), RepeatBand constants from the documentation in oracle.BAND',
          'abstract interpretation with polynomial terms; interval/linear entailment; wrap detection', '4 (C13)'),
